@@ -153,7 +153,9 @@ func checkC20(c *Ctx, r *Report) {
 					cands = append(cands, cand{s, t, k})
 				}
 			} else {
-				r.Add("C20-format", where, "format operand", c.pos(ci.Pos())).Bad("format is not a constant or a choice of constants (unresolved)")
+				// neither a constant nor a phi of constants (a field of a table entry selected by the flag,
+				// a helper's result): judged per enumerated case, which reports what it cannot resolve
+				h5CaseFormat(c, r, fn, where, ci, latParam)
 			}
 			// a format whose use (latitude / longitude) is not given by a branch on the flag around it,
 			// or whose width is passed as an argument ('*'), is judged per enumerated case instead:
@@ -232,16 +234,20 @@ func checkC20(c *Ctx, r *Report) {
 		r.Fail("C20-course", "anchor catalog.NewCourse not found")
 	} else {
 		where := fnName(fn)
-		calls := callsTo(fn, false, "fmt.Sprintf")
+		// fmt.Appendf(nil, format, ...) yields the bytes Sprintf yields as a string (ip_h5.go)
+		calls := callsTo(fn, false, "fmt.Sprintf", "fmt.Appendf")
 		if len(calls) == 0 && c20courseDigits(c, r, pr, fn) {
 			// the digits are computed arithmetically and were examined one by one (below)
 		} else if len(calls) != 1 {
 			r.Fail("C20-course", "NewCourse has %d fmt.Sprintf calls, expected the one formatting the degrees, and does not assign the three digits one by one either (unresolved)", len(calls))
 		} else {
 			ci := calls[0]
+			fi := h5FormatIndex(ci)
 			o := r.Add("C20-course", where, "degrees format", c.pos(ci.Pos()))
-			if s, ok := constString(ci.Common().Args[0]); !ok {
+			if s, ok := constString(ci.Common().Args[fi]); !ok {
 				o.Bad("format is not constant (unresolved)")
+			} else if fi > 0 && !h5EmptySlice(ci.Common().Args[0]) {
+				o.Bad("the degrees are appended to a buffer that is not known to be empty: the three digit positions would hold what was there before")
 			} else {
 				verbs, tail := parseVerbs(s)
 				if len(verbs) == 1 && tail == "" && verbs[0].lit == "" && verbs[0].verb == 'd' && verbs[0].width == 3 && strings.Contains(verbs[0].flags, "0") && !strings.ContainsAny(verbs[0].flags, "+ -") {
@@ -253,7 +259,7 @@ func checkC20(c *Ctx, r *Report) {
 			// the formatted value is within [0, 999] — in fact [0,359]
 			o = r.Add("C20-course", where, "formatted value within three digits", c.pos(ci.Pos()))
 			var arg ssa.Value
-			if sl, ok := ci.Common().Args[1].(*ssa.Slice); ok {
+			if sl, ok := ci.Common().Args[fi+1].(*ssa.Slice); ok {
 				if al, ok := sl.X.(*ssa.Alloc); ok {
 					for _, ref := range *al.Referrers() {
 						if ia, ok := ref.(*ssa.IndexAddr); ok {
